@@ -157,6 +157,11 @@ def forever_tie(ix):
         for m in sp['members']:
             if m['forever'] and elig[m['id']] is not None and elig[m['id']] == last['t']:
                 return True
+            # ... or that ENDS at that very instant: a few loop iterations earlier or later it
+            # is cancelled instead, and may take time to honour that
+            ex = ix.exit(m['id'])
+            if m['forever'] and ex is not None and ex['how'] in NORMAL and ex['t'] == last['t']:
+                return True
     return False
 
 
@@ -214,9 +219,10 @@ def evaluate(case):
         diff = [(k, a[k], b[k]) for k in sorted(a) if a[k] != b[k]]
         if (diff or ttrace.outcome != trace.outcome) and (
                 forever_tie(ix) or forever_tie(tix)):
-            # a forever job that becomes eligible at the very instant its scheduler has
-            # finished may or may not start (C09 leaves it open); if it takes time to honour
-            # its cancellation, everything behind that scheduler moves with it
+            # a forever job that becomes eligible - or that ends - at the very instant its
+            # scheduler has finished may or may not start / be cancelled (C09 leaves it
+            # open); if it takes time to honour its cancellation, everything behind that
+            # scheduler moves with it
             res.label('twin:forever-job-eligible-at-the-stop-instant')
             diff = []
             ttrace.outcome = trace.outcome
